@@ -158,9 +158,10 @@ async fn run_async(case: &Case, fx: &Fixture) -> CaseResult {
     if !table_function_scans(&plan, &fx.tables).is_empty() {
         return CaseResult::discard("plan scans a table function (unparsed as a quoted table name; known limitation, not demanded)");
     }
-    let original = match exec_logical(&a.ctx, &plan).await {
-        Ok(x) => x,
-        Err(e) => return CaseResult::discard(format!("original plan fails to run: {:?}", err_class(&e))),
+    let original = match no_panic(exec_logical(&a.ctx, &plan)).await {
+        None => return CaseResult::discard("original plan panics while planning / running (outside this property)"),
+        Some(Ok(x)) => x,
+        Some(Err(e)) => return CaseResult::discard(format!("original plan fails to run: {:?}", err_class(&e))),
     };
     let kinds = logical_kinds(&plan);
     let mut labels: Vec<String> = kinds.iter().map(|k| format!("node:{k}")).collect();
@@ -198,11 +199,13 @@ async fn run_async(case: &Case, fx: &Fixture) -> CaseResult {
     };
     let df = match b.ctx.sql(&text).await {
         Ok(d) => d,
+        Err(e) if matches!(e.find_root(), DataFusionError::NotImplemented(_)) => return CaseResult::discard(format!("re-planning the unparsed SQL: {}", err_key(&e))).labels(labels),
         Err(e) => return CaseResult::violation(format!("the unparser accepts the plan but its SQL does not plan: {}{}", err_text(&e), ctxt())).labels(labels),
     };
     let schema1: arrow::datatypes::SchemaRef = std::sync::Arc::new(df.schema().as_arrow().clone());
     let rows1 = match df.collect().await {
         Ok(bs) => batches_to_rows(&bs),
+        Err(e) if matches!(e.find_root(), DataFusionError::NotImplemented(_)) => return CaseResult::discard(format!("running the unparsed SQL: {}", err_key(&e))).labels(labels),
         Err(e) => return CaseResult::violation(format!("the unparsed SQL fails to run although the plan runs: {}{}", err_text(&e), ctxt())).labels(labels),
     };
     if let Some(m) = types_logically_equal(&original.schema, &schema1) {
